@@ -545,6 +545,9 @@ static int get_terminator (char *terminator) {
     }
 
   terminator[j] = '\0';
+#ifdef NEOLITH_VERIF
+  VERIF_CTRACE ("obs.term.len", j, MAXLINE + 5 - 1);
+#endif
 
   while (is_wspace (c) && c != LEX_EOF)
     c = *outptr++;
@@ -3059,6 +3062,9 @@ static void handle_define (char *yyt) {
             }
         }
       *--q = 0;
+#ifdef NEOLITH_VERIF
+      VERIF_CTRACE ("obs.def.text.fn", q - mtext, MLEN - 1);
+#endif
       add_define (namebuf, arg, mtext);
     }
   else if (is_wspace (*p) || (*p == '\\'))
@@ -3081,6 +3087,9 @@ static void handle_define (char *yyt) {
             }
         }
       *--q = 0;
+#ifdef NEOLITH_VERIF
+      VERIF_CTRACE ("obs.def.text", q - mtext, MLEN - 1);
+#endif
       add_define (namebuf, -1, mtext);
     }
   else
@@ -3101,8 +3110,14 @@ static void handle_define (char *yyt) {
 static void add_input (const char *p) {
   size_t len = strlen (p);
 
+#ifdef NEOLITH_VERIF
+  VERIF_CTRACE (cur_lbuf->term_type == TERM_ADD_INPUT ? "lbuf.add.req.a" : "lbuf.add.req", outptr - cur_lbuf->buf, len);
+#endif
   if (len >= DEFMAX - 10)
     {
+#ifdef NEOLITH_VERIF
+      VERIF_CTRACE ("lbuf.add.toolong", 0, 0);
+#endif
       lexerror ("Macro expansion buffer overflow");
       return;
     }
@@ -3119,8 +3134,14 @@ static void add_input (const char *p) {
       while (*q != '\n' && *q != LEX_EOF)
         q++;
       /* Incorporate EOF later */
+#ifdef NEOLITH_VERIF
+      VERIF_CTRACE (*q == '\n' ? "lbuf.add.scan.nl" : "lbuf.add.scan.eof", q - outptr, last_nl - outptr);
+#endif
       if (*q != '\n' || ((q - outptr) + len) >= DEFMAX - 11)
         {
+#ifdef NEOLITH_VERIF
+          VERIF_CTRACE ("lbuf.add.overflow", 0, 0);
+#endif
           lexerror ("Macro expansion buffer overflow");
           return;
         }
@@ -3139,11 +3160,18 @@ static void add_input (const char *p) {
       memcpy (new_outp + len, outptr, (q - outptr) + 1);
       outptr = new_outp;
       *(last_nl + 1) = 0;
+#ifdef NEOLITH_VERIF
+      VERIF_CTRACE ("lbuf.add.new", outptr - cur_lbuf->buf, DEFMAX);
+      VERIF_CTRACE ("lbuf.add.newend", last_nl + 1 - cur_lbuf->buf, DEFMAX - 1);
+#endif
       return;
     }
 
   outptr -= len;
   memcpy (outptr, p, len);
+#ifdef NEOLITH_VERIF
+  VERIF_CTRACE ("lbuf.add.inplace", outptr - cur_lbuf->buf, DEFMAX);
+#endif
 }
 
 static void add_predefine (char *name, int nargs, char *exps) {
@@ -3263,6 +3291,9 @@ static int expand_define () {
                * without any other test */
               if (q >= expbuf + DEFMAX - 5)
                 {
+#ifdef NEOLITH_VERIF
+                  VERIF_CTRACE ("obs.exp.args.full", q - expbuf, DEFMAX - 1);
+#endif
                   lexerror ("Macro argument overflow");
                   return 0;
                 }
@@ -3354,6 +3385,9 @@ static int expand_define () {
                   get_next_char (c);
                 }
             }
+#ifdef NEOLITH_VERIF
+          VERIF_CTRACE ("obs.exp.args", q - expbuf, DEFMAX);
+#endif
           if (n == NARGS)
             {
               lexerror ("Maximum macro argument count exceeded");
@@ -3407,6 +3441,9 @@ static int expand_define () {
             }
         }
       *b++ = 0;
+#ifdef NEOLITH_VERIF
+      VERIF_CTRACE ("obs.exp.body", b - buf, DEFMAX);
+#endif
       add_input (buf);
     }
   return 1;
